@@ -116,3 +116,72 @@ def is_nontrivial_tx(tx):
         for t in s.script:
             if isinstance(t, str) and not t.startswith('OP_') and len(t) > 150: return True
     return len(tx.inputs) >= 253 or len(tx.outputs) >= 253
+
+
+# ---------------------------------------------------------------- in-place mutation of a Transaction through public attributes
+def random_mutations(rng, tx, names, n=None):
+    """a list of mutation descriptors applicable to `tx` (see apply_mutations)"""
+    muts = []
+    for _ in range(n if n is not None else rng.choice([1, 1, 2, 3])):
+        r = rng.random()
+        ni, no = len(tx.inputs) + sum(1 for m in muts if m[0] == 'addin'), len(tx.outputs) + sum(1 for m in muts if m[0] == 'addout')
+        if r < 0.2: muts.append(('seq', rng.randrange(ni), rbytes(rng, 4).hex()))
+        elif r < 0.4 and no: muts.append(('amt', rng.randrange(no), rng.randrange(0, 21 * 10 ** 14)))
+        elif r < 0.55: muts.append(('addout', rng.randrange(0, 10 ** 12), std_script(rng, names)))
+        elif r < 0.65: muts.append(('addin', rbytes(rng, 32).hex(), rng.randrange(0, 5)))
+        elif r < 0.8: muts.append(('sig', rng.randrange(ni), std_script(rng, names)))
+        elif r < 0.9: muts.append(('lock', rbytes(rng, 4).hex()))
+        elif no: muts.append(('spk', rng.randrange(no), std_script(rng, names)))
+        else: muts.append(('lock', rbytes(rng, 4).hex()))
+    return muts
+
+
+def apply_mutations(tx, muts):
+    from bitcoinutils.transactions import TxInput, TxOutput, TxWitnessInput
+    from bitcoinutils.script import Script
+    for m in muts:
+        if m[0] == 'seq': tx.inputs[m[1]].sequence = bytes.fromhex(m[2])
+        elif m[0] == 'amt': tx.outputs[m[1]].amount = m[2]
+        elif m[0] == 'addout': tx.outputs.append(TxOutput(m[1], Script(list(m[2]))))
+        elif m[0] == 'addin':
+            tx.inputs.append(TxInput(m[1], m[2]))
+            if tx.has_segwit: tx.witnesses.append(TxWitnessInput([]))
+        elif m[0] == 'sig': tx.inputs[m[1]].script_sig = Script(list(m[2]))
+        elif m[0] == 'lock': tx.locktime = bytes.fromhex(m[1])
+        elif m[0] == 'spk': tx.outputs[m[1]].script_pubkey = Script(list(m[2]))
+
+
+def muts_line(muts):
+    from harness.common import toks_str
+    out = [str(len(muts))]
+    for m in muts:
+        if m[0] in ('addout', 'sig', 'spk'): out += [m[0], str(m[1]), toks_str(m[2])]
+        else: out += [m[0]] + [str(x) for x in m[1:]]
+    return ' '.join(out)
+
+
+def parse_muts(F):
+    muts = []
+    for _ in range(F.nat()):
+        k = F.next()
+        if k == 'seq': muts.append((k, F.nat(), F.next()))
+        elif k == 'amt': muts.append((k, F.nat(), F.int()))
+        elif k == 'addout': muts.append((k, F.int(), F.toks()))
+        elif k == 'addin': muts.append((k, F.next(), F.nat()))
+        elif k in ('sig', 'spk'): muts.append((k, F.nat(), F.toks()))
+        elif k == 'lock': muts.append((k, F.next()))
+        else: raise ValueError(k)
+    return muts
+
+
+def exercise(tx):
+    """call every method that might cache something on the object (results discarded)"""
+    from bitcoinutils.script import Script
+    code = Script(['OP_1'])
+    for f in (lambda: tx.get_txid(), lambda: tx.get_wtxid(), lambda: tx.get_size(), lambda: tx.get_vsize(), lambda: tx.to_hex(),
+              lambda: tx.get_transaction_digest(0, code, 1), lambda: tx.get_transaction_segwit_digest(0, code, 1000, 1),
+              lambda: tx.get_transaction_segwit_digest(0, code, 1000, 3), lambda: tx.get_transaction_segwit_digest(0, code, 1000, 0x81),
+              lambda: tx.get_transaction_taproot_digest(0, [Script(['OP_1'])] * len(tx.inputs), [1000] * len(tx.inputs), 0, sighash=0),
+              lambda: tx.get_transaction_taproot_digest(0, [Script(['OP_1'])] * len(tx.inputs), [1000] * len(tx.inputs), 0, sighash=2)):
+        try: f()
+        except Exception: pass
